@@ -15,6 +15,16 @@
 //   var2 <csv|xrff> <delim> <hdr> <trim> <keep> <oidx> <hook> <typing> <data|ctor> <hexbytes>
 //                                                           read (either format) + setup_terminals: every
 //                                                           inserted symbol (variables, state constants)
+//   hist <df|prob> <typing> <nsteps> {step}                 a HISTORY of imports on ONE dataframe object:
+//        step = csv <delim> <hdr> <trim> <keep> <oidx> <hook> <hexbytes>       read_csv(istream, params)
+//             | xrff <hook> <hexbytes>                                         read_xrff(istream, params)
+//             | file <hexext> <delim> <hdr> <trim> <keep> <oidx> <hook> <hexbytes>   read(path, params)
+//             | clear                                                          clear()
+//             | clone        (prob only) validation.clone_schema(training); later steps go to validation
+//        df: a plain `dataframe`; prob: `src_problem::data()`, `setup_terminals(typing)` is called right after
+//        the first successful import.  Answer: `hist | <dump after step 1> | <dump after step 2> ...` (the
+//        history stops at the first exception) and, for prob, `| <ok S ...>`: every symbol, the variables
+//        evaluated on the examples of the dataframe the last step worked on.
 //
 //   delim : byte value, 0 = sniff          hdr  : -1 guess, 0 no header, 1 header
 //   oidx  : -1 = no output column          filter / hook: see make_filter
@@ -252,6 +262,83 @@ struct probe_params : symbol_params
     return i < ex->size() ? (*ex)[i] : value_t(std::string("<out-of-range>"));
   }
 };
+// Every symbol with an opcode in [first, last) (the opcodes of the symbols of a process are consecutive), in
+// insertion order, with what it evaluates to: variables on the first three examples of `d`.
+std::string symbols_dump(const src_problem &pr, const dataframe &d, opcode_t first, opcode_t last,
+                         bool in_range_only = false)
+{
+  std::ostringstream o;
+  std::size_t n(0);
+  for (opcode_t c(first); c < last; ++c)
+    if (const symbol *s = pr.sset.decode(c))
+    {
+      ++n;
+      const auto *tm(s->terminal() ? static_cast<const terminal *>(s) : nullptr);
+      if (tm && tm->input())
+      {
+        o << " v " << hex(s->name()) << ' ' << s->category() << ' ' << std::min<std::size_t>(3, d.size());
+        std::size_t row(0);
+        for (const auto &e : d)
+        {
+          probe_params pp;
+          pp.ex = &e.input;
+          const value_t direct(s->eval(pp));
+          o << ' ' << pp.asked << ' ' << val(direct);
+          // (in_range_only: a history may end with examples of another schema - the variables made for the
+          // first one are reported as out of range by the probe, a real interpreter is not run on them)
+          if (s->category() == 0    // i_mep(vector<gene>) starts at locus (0, 0)
+              && (!in_range_only || (pp.asked >= 0 && std::size_t(pp.asked) < e.input.size())))
+          {
+            const i_mep ind({gene(*tm)});
+            o << ' ' << val(run(ind, e.input));
+          }
+          else
+            o << " -";
+          if (++row >= 3) break;
+        }
+      }
+      else if (tm)
+      {
+        probe_params pp;
+        const std::vector<value_t> none;
+        pp.ex = &none;
+        o << " k " << hex(s->name()) << ' ' << s->category() << ' ' << val(s->eval(pp));
+      }
+      else
+        o << " f " << hex(s->name()) << ' ' << s->category();
+    }
+  std::ostringstream h;
+  h << "ok S " << n << o.str() << " P " << pr.sset.categories() << ' '
+    << (d.empty() ? 0u : unsigned(d.begin()->input.size())) << ' ' << d.classes() << " C " << d.columns.size();
+  for (const auto &c : d.columns)
+    h << ' ' << hex(c.name) << ' ' << int(c.domain) << ' ' << c.states.size();
+  return h.str();
+}
+
+// dataframe::read(path, params) on a scratch file with the given extension
+std::size_t read_file(dataframe &d, const std::filesystem::path &scratch, const std::string &ext,
+                      const std::string &bytes, const dataframe::params &p)
+{
+  const std::filesystem::path dir(scratch / "c09_files");
+  std::filesystem::create_directories(dir);
+  const auto fn(dir / ("t" + std::to_string(::getpid()) + ext));
+  {
+    std::ofstream out(fn, std::ios::binary);
+    out << bytes;
+  }
+  std::size_t n(0);
+  try
+  {
+    n = d.read(fn, p);
+  }
+  catch (...)
+  {
+    std::filesystem::remove(fn);
+    throw;
+  }
+  std::filesystem::remove(fn);
+  return n;
+}
 }  // namespace
 
 int main(int, char *argv[])
@@ -464,52 +551,81 @@ int main(int, char *argv[])
           prp->setup_terminals(ty);
         }
         auto &pr(*prp);
-        const auto &d(pr.data());
         const opcode_t last(variable("probe", 0).opcode());
-        std::ostringstream o;
-        std::size_t n(0);
-        for (opcode_t c(first); c < last; ++c)
-          if (const symbol *s = pr.sset.decode(c))
-          {
-            ++n;
-            const auto *tm(s->terminal() ? static_cast<const terminal *>(s) : nullptr);
-            if (tm && tm->input())
-            {
-              o << " v " << hex(s->name()) << ' ' << s->category() << ' ' << std::min<std::size_t>(3, d.size());
-              std::size_t row(0);
-              for (const auto &e : d)
-              {
-                probe_params pp;
-                pp.ex = &e.input;
-                const value_t direct(s->eval(pp));
-                o << ' ' << pp.asked << ' ' << val(direct);
-                if (s->category() == 0)   // i_mep(vector<gene>) starts at locus (0, 0)
-                {
-                  const i_mep ind({gene(*tm)});
-                  o << ' ' << val(run(ind, e.input));
-                }
-                else
-                  o << " -";
-                if (++row >= 3) break;
-              }
-            }
-            else if (tm)
-            {
-              probe_params pp;
-              const std::vector<value_t> none;
-              pp.ex = &none;
-              o << " k " << hex(s->name()) << ' ' << s->category() << ' ' << val(s->eval(pp));
-            }
-            else
-              o << " f " << hex(s->name()) << ' ' << s->category();
-          }
-        std::ostringstream h;
-        h << "ok S " << n << o.str() << " P " << pr.sset.categories() << ' ' << pr.variables() << ' '
-          << pr.classes() << " C " << d.columns.size();
-        for (const auto &c : d.columns)
-          h << ' ' << hex(c.name) << ' ' << int(c.domain) << ' ' << c.states.size();
-        return h.str();
+        return symbols_dump(pr, pr.data(), first, last);
       });
+    }
+
+    else if (op == "hist" && t.size() >= 4)
+    {
+      // one object, several imports: the answers of the steps are joined by " | "
+      std::string out("hist");
+      const bool prob(t[1] == "prob");
+      const auto ty(t[2] == "1" ? typing::strong : typing::weak);
+      src_problem pr;
+      dataframe plain;
+      dataframe *target(prob ? &pr.data() : &plain);
+      bool terminals(false), dead(false);
+      opcode_t first(0), last(0);
+      std::size_t at(4);
+      const std::size_t nsteps(std::stoul(t[3]));
+      for (std::size_t k(0); k < nsteps && !dead && at < t.size(); ++k)
+      {
+        const std::string kind(t[at]);
+        bool import(true);
+        const std::string a(guarded([&]() -> std::string
+        {
+          if (kind == "csv" && at + 7 < t.size())
+          {
+            const auto p(make_params2(t, at + 1));
+            std::istringstream is(verif::unhex(t[at + 7]));
+            const auto n(target->read_csv(is, p));
+            return dump(*target, n);
+          }
+          if (kind == "xrff" && at + 2 < t.size())
+          {
+            dataframe::params p;
+            p.filter = make_filter(t[at + 1]);
+            std::istringstream is(verif::unhex(t[at + 2]));
+            const auto n(target->read_xrff(is, p));
+            return dump(*target, n);
+          }
+          if (kind == "file" && at + 8 < t.size())
+          {
+            const auto p(make_params2(t, at + 2));
+            const auto n(read_file(*target, scratch, verif::unhex(t[at + 1]), verif::unhex(t[at + 8]), p));
+            return dump(*target, n);
+          }
+          import = false;
+          if (kind == "clear")
+          {
+            target->clear();
+            return dump(*target, 0);
+          }
+          if (kind == "clone" && prob)
+          {
+            pr.data(dataset_t::validation).clone_schema(pr.data(dataset_t::training));
+            target = &pr.data(dataset_t::validation);
+            return dump(*target, 0);
+          }
+          return "bad-step";
+        }));
+        at += kind == "csv" ? 8 : kind == "xrff" ? 3 : kind == "file" ? 9 : 1;
+        out += " | " + a;
+        if (a.compare(0, 2, "ok") != 0) { dead = true; break; }
+        if (prob && import && !terminals)
+        {
+          terminals = true;
+          first = variable("probe", 0).opcode() + 1;
+          const std::string st(guarded([&]() -> std::string { pr.setup_terminals(ty); return "ok"; }));
+          last = variable("probe", 0).opcode();
+          if (st != "ok") { out += " | " + st; dead = true; }
+        }
+      }
+      if (prob && !dead)
+        out += " | " + (terminals ? guarded([&] { return symbols_dump(pr, *target, first, last, true); })
+                                  : std::string("no-import"));
+      ans = out;
     }
 
     std::cout << ans << "\n" << std::flush;
